@@ -313,6 +313,11 @@ fn main() {
             }
         }
     }
+    if fault == "garbage_after" {
+        // the verdict is followed by output that is not part of the format (e.g. an error message of a dying solver)
+        reply.push_str("ERROR: internal error, aborting");
+        reply.push_str(nl);
+    }
     for i in 0..comments_after {
         reply.push_str(&comment_line(i));
         reply.push_str(nl);
